@@ -78,6 +78,34 @@ EXTRA += [
         {"k": "fndecl", "n": "f", "ps": [{"n": "it", "ty": T("multi", ms=[_ITER_INT, _ITER_FLOAT])}], "r": T("multi", ms=[T("int"), T("float")]),
          "body": [{"k": "ret", "e": {"k": "red", "op": "$+", "ek": "dyn", "it": _V("it")}}]},
         {"k": "tup", "es": [{"k": "call", "f": _V("f"), "args": [_EMPTY_IT]}]}]},
+    # rejected programs whose error carries union / struct types (the error values of two parses must compare equal)
+    {"id": "det-error-missing-return-union", "prog": [
+        {"k": "fndecl", "n": "f", "ps": [{"n": "a", "ty": T("int")}], "r": T("multi", ms=[T("int"), T("float"), T("string")]), "body": []},
+        I(0)]},
+    {"id": "det-error-wrong-initialization-union", "prog": [
+        {"k": "set", "n": "c", "e": {"k": "mut", "ty": T("multi", ms=[T("int"), T("float"), T("bool")]), "e": lit({"k": "string", "cps": [97]})}}, I(0)]},
+    {"id": "det-error-missing-return-struct", "prog": [
+        {"k": "fndecl", "n": "f", "ps": [], "r": T("struct", fs=[["a", T("int")], ["b", T("float")], ["c", T("string")]]), "body": []}, I(0)]},
+    # a mapper with effects over an array whose run-time element type is a union, driven to exhaustion: the mapper is
+    # applied to the elements, never to the value an exhausted source carries
+    {"id": "det-map-union-exhausted", "prog": [
+        {"k": "set", "n": "n", "e": {"k": "mut", "ty": T("int"), "e": I(0)}},
+        {"k": "set", "n": "r", "e": {"k": "collect", "it": {"k": "map",
+            "it": {"k": "iter", "e": {"k": "arr", "es": [I(1), lit({"k": "float", "v": 5})]}},
+            "f": {"k": "fn", "ps": [{"n": "x", "ty": T("multi", ms=[T("int"), T("float")])}], "r": T("int"), "body": [
+                {"k": "asg", "op": "+=", "l": _V("n"), "r": I(1)},
+                {"k": "ifset", "n": "i", "ty": T("int"), "e": _V("x"), "t": {"k": "block", "body": [{"k": "ret", "e": {"k": "bin", "op": "/", "l": I(10), "r": _V("i")}}]}, "f": {"k": "none"}},
+                {"k": "ret", "e": I(0)}]}}}},
+        {"k": "tup", "es": [_V("r"), {"k": "deref", "e": _V("n")}]}]},
+    {"id": "det-map-tfilter-union-exhausted", "prog": [
+        {"k": "set", "n": "n", "e": {"k": "mut", "ty": T("int"), "e": I(0)}},
+        {"k": "set", "n": "r", "e": {"k": "collect", "it": {"k": "map",
+            "it": {"k": "tfilter", "it": {"k": "iter", "e": {"k": "arr", "es": [I(7), lit({"k": "string", "cps": [97]}), lit({"k": "float", "v": 5})]}}, "ty": T("multi", ms=[T("int"), T("float")])},
+            "f": {"k": "fn", "ps": [{"n": "x", "ty": T("multi", ms=[T("int"), T("float")])}], "r": T("int"), "body": [
+                {"k": "asg", "op": "+=", "l": _V("n"), "r": I(1)},
+                {"k": "ifset", "n": "i", "ty": T("int"), "e": _V("x"), "t": {"k": "block", "body": [{"k": "ret", "e": {"k": "bin", "op": "%", "l": I(10), "r": _V("i")}}]}, "f": {"k": "none"}},
+                {"k": "ret", "e": I(0)}]}}}},
+        {"k": "tup", "es": [_V("r"), {"k": "deref", "e": _V("n")}]}]},
     _union_operand(1, [{"k": "for", "n": "x", "e": _V("it"), "b": {"k": "block", "body": []}}, {"k": "ret", "e": I(1)}]),
     _union_operand(2, [{"k": "ret", "e": {"k": "reduce", "it": _V("it"), "init": I(0), "f": _ADD}}]),
     _union_operand(3, [{"k": "ret", "e": {"k": "collect", "it": {"k": "map", "it": _V("it"), "f": _ID}}}]),
